@@ -142,10 +142,30 @@ func (s *Sim) NextDeadline() time.Duration {
 }
 
 func (s *Sim) wait() error {
-	if !s.W.S.waitParked(s.nProcs) {
-		return fmt.Errorf("sim: processes did not come to rest (current=%q)", s.W.S.Current())
+	// a process goroutine that has exited for good (state Shutdown while the workflow runs) will never park again: give up at once
+	// instead of waiting for the full timeout
+	done := make(chan bool, 1)
+	go func() { done <- s.W.S.waitParked(s.nProcs) }()
+	tick := time.NewTicker(50 * time.Millisecond)
+	defer tick.Stop()
+	for {
+		select {
+		case ok := <-done:
+			if !ok {
+				return fmt.Errorf("sim: processes did not come to rest (current=%q)", s.W.S.Current())
+			}
+			return nil
+		case <-tick.C:
+			if s.stopped || s.W.S.Current() != "" {
+				continue
+			}
+			for _, st := range s.WF.States() {
+				if st == workflow.StateShutdown {
+					return fmt.Errorf("sim: processes did not come to rest (a process has shut down; current=%q)", s.W.S.Current())
+				}
+			}
+		}
 	}
-	return nil
 }
 
 var errNotEnabled = fmt.Errorf("not enabled")
